@@ -159,7 +159,7 @@ def frames(rng, n_cases):
                         v = np.nan
                     rows.append({K['id']: i_, K['time']: t, K['obs']: o, K['val']: v, K['dose']: np.nan, K['dur']: np.nan})
             for _ in range(int(rng.integers(0, 4))):
-                rows.append({K['id']: i_, K['time']: float(rng.integers(0, 40)) * 0.25, K['obs']: np.nan, K['val']: np.nan, K['dose']: float(rng.integers(1, 9)), K['dur']: float(rng.integers(1, 4)) * 0.5})
+                rows.append({K['id']: i_, K['time']: float(rng.integers(0, 40)) * 0.25, K['obs']: np.nan, K['val']: np.nan, K['dose']: float(rng.integers(1, 9)), K['dur']: (np.nan if rng.integers(0, 3) == 0 else float(rng.integers(1, 4)) * 0.5)})     # bolus doses are recorded without a duration
         order = rng.permutation(len(rows))
         df = pd.DataFrame([rows[j] for j in order]) if rows else pd.DataFrame(columns=list(K.values()))
         if len(df) == 0 or df[K['obs']].dropna().empty:
